@@ -932,6 +932,7 @@ func recvBufferOwners(c *Ctx, rule string) {
 //   - forward an item taken from the tube's own queue (the sender goroutine, which Close joins), or
 //   - happen with lifecycleMu held, after u.state was loaded in the same critical section and found
 //     not closed on the path.
+//
 // A send outside the critical section can hit the closed queue: "send on closed channel" in the muxer's
 // receive goroutine, triggered by a peer that repeats its REQ while the local side shuts down.
 func unreliableSendRule(c *Ctx, rule string) {
